@@ -1,5 +1,7 @@
 """Contracts of the index kernel of pyerrors/obs.py (DESIGN section 5, layer L1)."""
-from pyvc.specs import contract, Int, Real, RealSeq, Idl, IdlList, IdlRange, ListOf, Seq, Const, OneOf
+import z3
+from pyvc.specs import contract, Int, Real, RealSeq, Idl, IdlList, IdlRange, ListOf, Seq, Const, OneOf, Custom
+from pyvc.sym import SBool, fresh
 from pyvc import gen as G
 from pyvc.sym import (Len, At, And, Or, Not, Implies, Iff, Ite, ForAll, Exists, eq, is_range, member,
                       strictly_increasing, compare, arith, Step, Start)
@@ -125,3 +127,185 @@ contract(
     result=lambda a: RealSeq(),
     gen=lambda rng, case: _ed_gen(rng, case),
 )
+
+
+# ---------------------------------------------------------------------------------------------------
+# _check_lists_equal(idl):  True iff all elements are == (Python equality: same kind and same sequence)
+
+def _cle_post(a, r):
+    items = a.idl
+    n = Len(items)
+    return {"iff": Iff(r, And(*[pyeq(At(items, i), At(items, i + 1)) for i in range(n - 1)]))}
+
+
+contract(
+    "pyerrors/obs.py::_check_lists_equal", props=["C01", "C05", "C06"],
+    params=dict(idl=ListOf(Idl(), counts=(1, 2, 3))),
+    ensures=_cle_post,
+    result=lambda a: Custom(lambda name, ctx, shape: SBool(z3.Bool(fresh(name)))),
+    note="np.ndarray elements (np.nditer branch) are outside the contract: internal callers pass ranges and lists",
+    not_decided=["_check_lists_equal on ndarray elements (np.nditer comparison) is not modelled"],
+)
+
+
+# ---------------------------------------------------------------------------------------------------
+# _merge_idx(idl): union of the configuration lists, as a range exactly when equally spaced
+
+def in_some(c, items):
+    return Or(*[member(c, At(items, m)) for m in range(Len(items))])
+
+
+def equally_spaced(x):
+    """list x (len >= 2) has constant adjacent difference"""
+    return ForAll(0, Len(x) - 1, lambda i: At(x, i + 1) - At(x, i) == At(x, 1) - At(x, 0))
+
+
+def all_pyeq(items):
+    return And(*[pyeq(At(items, i), At(items, i + 1)) for i in range(Len(items) - 1)])
+
+
+def _union_facts(a, r):
+    items = a.idl
+    return {
+        "sorted": strictly_increasing(r),
+        "sound": ForAll(0, Len(r), lambda k: in_some(At(r, k), items)),
+        "complete": And(*[ForAll(0, Len(At(items, m)), lambda i, m=m: member(At(At(items, m), i), r)) for m in range(Len(items))]),
+    }
+
+
+def _mi_post(a, r):
+    items = a.idl
+    same = all_pyeq(items)
+    out = {"shortcut": Implies(same, pyeq(r, At(items, 0)))}
+    for k, f in _union_facts(a, r).items():
+        out[k] = f
+    # held as a range exactly when the union is equally spaced (or the inputs were all the same range)
+    if is_range(r):
+        out["range-kind"] = Or(same, equally_spaced_idl(r))
+    else:
+        out["list-kind"] = Or(same, Not(equally_spaced_idl(r)))
+    return out
+
+
+def equally_spaced_idl(r):
+    if is_range(r):
+        return True
+    return And(Len(r) >= 2, equally_spaced(r))
+
+
+contract(
+    "pyerrors/obs.py::_merge_idx", props=["C01", "C04"],
+    params=dict(idl=ListOf(Idl(min_len=2), counts=(1, 2, 3))),
+    # call sites pass the configuration lists of well-formed observables (>= 5 configurations each); two
+    # configurations per list are what the code needs: a one-element range next to an equal one-element list
+    # (range(1, 2) and [1]) makes `idunion[1]` raise IndexError
+    requires=lambda a: {"two": And(*[Len(At(a.idl, m)) >= 2 for m in range(Len(a.idl))])},
+    ensures=_mi_post,
+    ghost_after={"idrange": lambda v: [
+        # if the union is equally spaced, the candidate range enumerates exactly the union (induction over the index)
+        ("induct", "range-equals-union", 0, Ite(Len(v.idrange) < Len(v.idunion), Len(v.idrange), Len(v.idunion)),
+         lambda i: Implies(equally_spaced(v.idunion), At(v.idrange, i) == At(v.idunion, i))),
+    ]},
+    gen=lambda rng, case: {"idl": _gen_idls(rng, case["idl"])},
+    note="number of operand lists enumerated (1..3); lengths, configuration numbers and kinds unbounded",
+)
+
+
+def _gen_idls(rng, label):
+    kinds = label.strip("[]").split(";")
+    base = G.idl(rng, "range", n=rng.randint(2, 6))
+    out = []
+    for k in kinds:
+        r = rng.random()
+        if r < 0.35:
+            out.append(base if k == "range" else list(base))
+        elif r < 0.7:
+            out.append(G.sub_idl(rng, base, k))
+        else:
+            out.append(G.idl(rng, k))
+    return out
+
+
+# ---------------------------------------------------------------------------------------------------
+# _intersection_idx(idl)
+
+def in_all(c, items):
+    return And(*[member(c, At(items, m)) for m in range(Len(items))])
+
+
+def _ii_post(a, r):
+    items = a.idl
+    same = all_pyeq(items)
+    out = {
+        "shortcut": Implies(same, pyeq(r, At(items, 0))),
+        "sorted": strictly_increasing(r),
+        "sound": ForAll(0, Len(r), lambda k: in_all(At(r, k), items)),
+        "complete": ForAll(0, Len(At(items, 0)), lambda i: Implies(in_all(At(At(items, 0), i), items), member(At(At(items, 0), i), r))),
+    }
+    if is_range(r):
+        out["range-kind"] = Or(same, True)
+    else:
+        out["list-kind"] = Or(same, Not(equally_spaced_idl(r)))
+    return out
+
+
+contract(
+    "pyerrors/obs.py::_intersection_idx", props=["C06"],
+    params=dict(idl=ListOf(Idl(), counts=(1, 2))),
+    requires=lambda a: {"nonempty": And(*[Len(At(a.idl, m)) >= 1 for m in range(Len(a.idl))])},
+    ensures=_ii_post,
+    ghost_after={"idrange": lambda v: [
+        ("induct", "range-equals-intersection", 0, Ite(Len(v.idrange) < Len(v.idinter), Len(v.idrange), Len(v.idinter)),
+         lambda i: Implies(equally_spaced(v.idinter), At(v.idrange, i) == At(v.idinter, i))),
+    ]},
+    gen=lambda rng, case: {"idl": _gen_idls(rng, case["idl"])},
+)
+
+
+# ---------------------------------------------------------------------------------------------------
+# _reduce_deltas(deltas, idx_old, idx_new): gather by configuration number, never by position
+
+contract(
+    "pyerrors/obs.py::_reduce_deltas", props=["C05", "C06"],
+    params=dict(deltas=RealSeq(), idx_old=Idl(), idx_new=Idl()),
+    raises=[("ValueError", lambda a: Or(Len(a.deltas) != Len(a.idx_old), Not(subset(a.idx_new, a.idx_old))))],
+    ensures=lambda a, r: {
+        "len": Len(r) == Len(a.idx_new),
+        "gather": ForAll(0, Len(a.idx_new), lambda k: ForAll(0, Len(a.idx_old), lambda j: Implies(
+            At(a.idx_old, j) == At(a.idx_new, k), eq(At(r, k), At(a.deltas, j))))),
+    },
+    result=lambda a: RealSeq(),
+    ghost_after={"indices": lambda v: _rd_ghost(v)},
+    gen=lambda rng, case: _rd_gen(rng, case),
+)
+
+
+def _rd_ghost(v):
+    """counting argument behind `len(indices) < len(idx_new)`: the common configurations, enumerated in increasing
+    order, are a sub-sequence of idx_new; it has full length iff it is idx_new itself."""
+    ind, old, new = v.indices, v.idx_old, v.idx_new
+    ib = ind.skolem["ib"]                      # position in idx_new of the k-th common configuration
+    pos = ind.skolem["pos"]                    # position in `indices` of an index of idx_old that is common
+    n, m = Len(ind), Len(new)
+    from pyvc.sym import SInt
+    import z3 as _z3
+    ibk = lambda k: SInt(_z3.Select(ib.arr, k.t if hasattr(k, "t") else k))
+    return [
+        # the k-th common configuration sits at position >= k of idx_new ...
+        ("induct", "ib-lower", 0, n, lambda k: ibk(k) >= k),
+        # ... and at position <= m-1-(n-1-k); with n >= m both bounds meet: ib is the identity
+        ("induct_down", "ib-upper", 0, n, lambda k: ibk(k) <= m - n + k),
+        ("assert", "ib-identity", Implies(n >= m, ForAll(0, m, lambda k: ibk(k) == k))),
+        ("assert", "aligned", Implies(n >= m, ForAll(0, m, lambda k: At(old, At(ind, k)) == At(new, k)))),
+        # conversely: if every configuration of idx_new is in idx_old, the i-th one is the k-th common one for some k >= i
+        # (stated without an existential: `pos` is the position in `indices` of an index of idx_old)
+        ("induct", "all-common", 0, m, lambda i: Implies(subset(new, old), ForAll(0, Len(old), lambda j: Implies(
+            At(old, j) == At(new, i), SInt(pos(j.t if hasattr(j, "t") else j)) >= i)))),
+    ]
+
+
+def _rd_gen(rng, case):
+    old = G.idl(rng, case["idx_old"])
+    new = G.sub_idl(rng, old, case["idx_new"]) if rng.random() < 0.8 else G.idl(rng, case["idx_new"])
+    n = len(old) if rng.random() < 0.9 else len(old) + 1
+    return dict(deltas=G.reals(rng, n), idx_old=old, idx_new=new)
